@@ -576,6 +576,10 @@ function oddProject(rng) {
       // constants defined in terms of each other, and numeric literals beyond the range of a double
       const shape = rng.pick(["const a = b;\nconst b = a;\ntype T = typeof a;", "const a = { k: b };\nconst b = { k: a };\ntype T = typeof a;",
         "const a = [a];\ntype T = typeof a;", "const a = { ...b };\nconst b = { ...a };\ntype T = typeof b;", "const a = { k: 1 };\nconst b = { p: a, q: a };\ntype T = typeof b;",
+        "const a = { x: a.x };\ntype T = typeof a;", "const a = { x: { y: a.x } };\ntype T = typeof a;", "const a = { x: b.y };\nconst b = { y: a.x };\ntype T = typeof a;", "const a = { x: 1, y: a[\"x\"] };\ntype T = typeof a;",
+        // a negation that survives to the printer (Exclude of the top type): the answer is a module, never a panic
+        "type T = Exclude<unknown, Uint8Array>;", "type T = { x: Exclude<unknown, { a: string }> };", "type T = Exclude<unknown, string>[];", "type T = [Exclude<unknown, Date>, number];",
+        "type T = { x?: Exclude<unknown, undefined> };", "type T = Record<string, Exclude<unknown, number>>;", "type T = Exclude<unknown, string> & { a: 1 };",
         "type T = 1e999 | 2;", "type T = -1e999;", "type T = { k: 1e400 };", "const inf = 1e999;\ntype T = typeof inf;", "type T = `${1e999}`;"]);
       return [["entry.ts", shape + "\nparse.buildParsers<{ E0: T }>();\n"]];
     }
